@@ -259,8 +259,14 @@ class C20:
 
         def blk(rows):
             return " ".join([str(len(rows))] + [" ".join(map(str, r)) for r in rows])
-        L.append(" ".join(["confh 0 %d %d %d %d" % (s, d, pt, pr["psize"]), blk([[l] for l in pr["labels"]]), blk([[a] for a in pr["alphas"]]),
-                           blk([[l] for l in h["hl"]]), blk(h["htr"]), blk(h["stat"]), blk(h["dynp"]), blk(h["dyn"])]))
+        tables = " ".join([blk([[l] for l in pr["labels"]]), blk([[a] for a in pr["alphas"]]),
+                           blk([[l] for l in h["hl"]]), blk(h["htr"]), blk(h["stat"]), blk(h["dynp"]), blk(h["dyn"])])
+        L.append("confh 0 %d %d %d %d %s" % (s, d, pt, pr["psize"], tables))
+        # the sliding driver with all its arguments, and the per-instant calls it must agree with (each of those is given
+        # freshly built tables; the sliding call passes one hierarchies dictionary to every window)
+        for t in ts:
+            L.append("confh 0 %d %d %d %d %s" % (t, d, pt, pr["psize"], tables))
+        L.append("sconfh 0 %d %d %d %s" % (d, pt, pr["psize"], tables))
         return L
 
     @staticmethod
@@ -272,10 +278,13 @@ class C20:
         dump0, conf, sl, dump1, pres1, atrp, sconf = outs[i:i + 7]
         j = i + 7 + 1 + nops + nl + (len(case["nmap"]) if case.get("presort") else 0)
         conf2 = outs[j]
-        per_t = outs[j + 1:-3]
-        confw = outs[-3]
-        confp = outs[-2]
-        confh = outs[-1]
+        nts = len(case["_ts"])
+        per_t = outs[j + 1:-4 - nts]
+        confw = outs[-4 - nts]
+        confp = outs[-3 - nts]
+        confh = outs[-2 - nts]
+        per_th = outs[-1 - nts:-1]
+        sconfh = outs[-1]
         fails = []
         s, d = case["start"], case["delta"]
         if sl != "ok" or oracles.is_err(dump1):
@@ -391,6 +400,30 @@ class C20:
                         got[(a, p, x)] = [[t, oracles_num(v)] for t, v in seq]
             if set(got) != set(exp) or any(len(got[k]) != len(exp[k]) or any(g[0] != e[0] or not approx(g[1], e[1]) for g, e in zip(got[k], exp[k])) for k in exp):
                 fails.append(F("C20.sliding", delta=d, expected=sorted([list(k), v] for k, v in exp.items())[:4], got=sorted([list(k), v] for k, v in got.items())[:4]))
+        # sliding with profiles, time-varying labels and hierarchies (model: slidingDeltaConformityH, theorem C20H_sliding)
+        if ids and not (pr["psize"] > len(pr["labels"]) or not pr["alphas"]):
+            visited = [(t, c) for t, c in zip(case["_ts"], per_th) if t in ids and t + d < ids[-1]]
+            if any(oracles.is_err(c) for _, c in visited):
+                if not oracles.is_err(sconfh):
+                    fails.append(F("C20.sliding_swallows_exception", where="hierarchies", per_t=[c for _, c in visited if oracles.is_err(c)][:2]))
+            elif oracles.is_err(sconfh):
+                fails.append(F("C20.sliding_raised", where="hierarchies", got=sconfh))
+            else:
+                exp = {}
+                for t, c in visited:
+                    if c is not None:
+                        for a, prof in c.items():
+                            for p, sc in prof.items():
+                                for x, val in sc:
+                                    exp.setdefault((a, p, x), []).append([t + d, oracles_num(val)])
+                got = {}
+                for a, prof in sconfh.items():
+                    for p, sc in prof.items():
+                        for x, seq in sc:
+                            got[(a, p, x)] = [[t, oracles_num(v)] for t, v in seq]
+                if set(got) != set(exp) or any(len(got[k]) != len(exp[k]) or any(g[0] != e[0] or not approx(g[1], e[1]) for g, e in zip(got[k], exp[k])) for k in exp):
+                    fails.append(F("C20.sliding", where="hierarchies", delta=d, expected=sorted([list(k), v] for k, v in exp.items())[:4],
+                                   got=sorted([list(k), v] for k, v in got.items())[:4]))
         return fails
 
     @staticmethod
